@@ -5,6 +5,7 @@
 //	u8:N u16:N u24:N u32:N      AddUintN            <-> ReadUintN
 //	b:HEX                       AddBytes            <-> ReadBytes(len)
 //	p1[ … ]  p2[ … ]  p3[ … ]   AddUintNLengthPrefixed <-> ReadUintNLengthPrefixed (body read from the child, child must end Empty)
+//	p4[ … ]                     AddUint32LengthPrefixed <-> ReadUint32 + ReadBytes (String has no ReadUint32LengthPrefixed)
 //	aTAG[ … ]                   AddASN1(tag)        <-> ReadASN1(&child, tag)
 //	i:V itTAG:V e:V u:V n:V     AddASN1Int64 / …WithTag / Enum / Uint64 / BigInt <-> ReadASN1Integer / ReadASN1Int64WithTag / ReadASN1Enum
 //	t f                         AddASN1Boolean      <-> ReadASN1Boolean
@@ -140,6 +141,8 @@ func write(b *cryptobyte.Builder, prog []op, exp *[]string) {
 			b.AddUint16LengthPrefixed(func(c *cryptobyte.Builder) { write(c, o.body, exp) })
 		case "p3[":
 			b.AddUint24LengthPrefixed(func(c *cryptobyte.Builder) { write(c, o.body, exp) })
+		case "p4[":
+			b.AddUint32LengthPrefixed(func(c *cryptobyte.Builder) { write(c, o.body, exp) })
 		case "a[":
 			b.AddASN1(cbasn1.Tag(o.tag), func(c *cryptobyte.Builder) { write(c, o.body, exp) })
 		case "oa[":
@@ -359,10 +362,20 @@ func (r *rd) read(s *cryptobyte.String, prog []op) bool {
 				return false
 			}
 			r.vals = append(r.vals, hx(*v))
-		case "p1[", "p2[", "p3[":
+		case "p1[", "p2[", "p3[", "p4[":
 			c := r.pStr()
 			ok := false
 			switch o.kind {
+			case "p4[":
+				var n uint32
+				if r.poisoned() {
+					n = 0xa5a5a5a5
+				}
+				body := r.pBytes()
+				ok = s.ReadUint32(&n) && s.ReadBytes(body, int(n))
+				if ok {
+					*c = cryptobyte.String(*body)
+				}
 			case "p1[":
 				ok = s.ReadUint8LengthPrefixed(c)
 			case "p2[":
@@ -910,6 +923,7 @@ func genAll(zg *zv.Gen) {
 	for _, l := range []string{
 		"c21 rw ob:t:f,u8:7 -", "c21 rw ob:f:t,i:5 -", "c21 rw a48[,ob:t:f,t,] 01", "c21 rw ob:t:f 0101ff", "c21 rw nb:t,u8:2 -", "c21 rw nb:f 0500",
 		"c21 rw o:1.2.268435456 -", "c21 rw o:1.2.2147483647 -", "c21 rw o:2.268435456.1 -", "c21 rw o:1.2.268435455 -", "c21 rw o:2.2147483567 -",
+		"c21 rw p4[,] -", "c21 rw p4[,u8:1,p4[,a48[,p4[,t,],],],] ff", "c21 rw a48[,p4[,b:0102,],z,] 00000000",
 		"c21 rw - -", "c21 rw - 00", "c21 rw p1[,] -", "c21 rw a48[,] -", "c21 rw a31[,u8:1,] -", "c21 rw p1[,p2[,p3[,a48[,u8:1,],],],] ff",
 		"c21 rw oi160:5:7,u8:160 -", "c21 rw ni160:7,u8:161 -", "c21 rw ni160:7,a160[,i:5,] -", "c21 rw os161:aabb,ns161,u8:1 -", "c21 rw oa162[,i:1,],na162,z -",
 		"c21 rw oa160[,s:7a65726f,],na161,oa162[,s:74776f,],u16:48879 -", "c21 rw na160,i:5 -", "c21 rw os160:aa,ns161,os162:-,ns163 -", "c21 rw oi160:5:7,ni161:7,ni162:0 -",
@@ -920,7 +934,7 @@ func genAll(zg *zv.Gen) {
 	// exhaustive: every sequence of <= 2 (quick) / 3 (thorough) ops over a small alphabet, x {no tail, tail}
 	alpha := [][]string{{"u8:1"}, {"u16:258"}, {"b:0102"}, {"i:-129"}, {"u:128"}, {"t"}, {"f"}, {"z"}, {"o:1.2.840"}, {"s:aa"},
 		{"ob:t:f"}, {"ob:f:t"}, {"nb:t"}, {"oi160:5:7"}, {"ni160:7"}, {"os161:bb"}, {"ns161"}, {"na162"}, {"oa162[", "t", "]"},
-		{"p1[", "u8:1", "]"}, {"a48[", "f", "]"}, {"p2[", "]"}, {"a160[", "i:5", "]"}}
+		{"p1[", "u8:1", "]"}, {"a48[", "f", "]"}, {"p2[", "]"}, {"a160[", "i:5", "]"}, {"p4[", "z", "]"}}
 	maxl := zg.N(2, 3)
 	var rec func(prefix []string, n int)
 	rec = func(prefix []string, n int) {
@@ -967,7 +981,7 @@ func genAll(zg *zv.Gen) {
 	}
 	for _, l := range bl {
 		body := "b:" + hx(r.Bytes(l))
-		for _, w := range []string{"p1[", "p2[", "p3[", "a48[", "a4[", "oa160["} {
+		for _, w := range []string{"p1[", "p2[", "p3[", "p4[", "a48[", "a4[", "oa160["} {
 			emit(zg, []string{w, body, "]", "u8:9"}, nil)
 			emit(zg, []string{"a49[", w, body, "]", "t", "]", "z"}, []byte{0x30})
 		}
@@ -996,5 +1010,5 @@ func genAll(zg *zv.Gen) {
 
 func init() {
 	zv.Register(&zv.Prop{ID: "C21", Topic: "c21", Gen: genAll, Exec: exec,
-		Rule: "write/read programs over the cryptobyte Builder/String API: every sequence of <= 2 (quick) / 3 (thorough) ops over a 23-op alphabet with and without trailing data; every kind of block at the length boundaries 0/1/0x7f/0x80/0xff/0x100/0xffff/0x10000 followed by data; random programs of <= 12 ops, nesting <= 4, with boundary integers, OID arcs up to 2^31-1, big integers up to 40 bytes, optional elements present/absent followed by other data, tails of 0..4 bytes; a case is one program+tail; every run of <= 3 (quick) / 4 (thorough) consecutive optional fields (present/absent, 14-op alphabet) alone, followed by data and inside a SEQUENCE; every program is read back four times: with every out-parameter of every reader pre-set to a non-default value (flags true, integers 0xa5.., slices/Strings/big.Int/OID/BitString/time non-empty), zero-initialised, with one shared variable per type reused for the whole program (optional INTEGERs into *big.Int), and with outPresent == nil; T3 = in all four the mirrored readers succeed, return the written values (absent optional: present=false / the default / a nil slice), leave exactly the tail and do not modify the input (programs whose build fails, and absent optionals followed by an equal tag byte, are counted trivial)"})
+		Rule: "write/read programs over the cryptobyte Builder/String API: every sequence of <= 2 (quick) / 3 (thorough) ops over a 24-op alphabet with and without trailing data; every kind of block (8/16/24/32-bit length prefixes - the 32-bit one read back with ReadUint32+ReadBytes -, ASN.1 elements) at the length boundaries 0/1/0x7f/0x80/0xff/0x100/0xffff/0x10000 followed by data; random programs of <= 12 ops, nesting <= 4, with boundary integers, OID arcs up to 2^31-1, big integers up to 40 bytes, optional elements present/absent followed by other data, tails of 0..4 bytes; a case is one program+tail; every run of <= 3 (quick) / 4 (thorough) consecutive optional fields (present/absent, 14-op alphabet) alone, followed by data and inside a SEQUENCE; every program is read back four times: with every out-parameter of every reader pre-set to a non-default value (flags true, integers 0xa5.., slices/Strings/big.Int/OID/BitString/time non-empty), zero-initialised, with one shared variable per type reused for the whole program (optional INTEGERs into *big.Int), and with outPresent == nil; T3 = in all four the mirrored readers succeed, return the written values (absent optional: present=false / the default / a nil slice), leave exactly the tail and do not modify the input (programs whose build fails, and absent optionals followed by an equal tag byte, are counted trivial)"})
 }
